@@ -554,9 +554,9 @@ func init() {
 		Assumptions: []string{"floats compared after rounding to the nearest hundredth (alphabet avoids values where rounding and truncation differ in exact arithmetic)", "not judged (must not panic): ordering operators on non-numeric or never-indexed fields, in/not_in on numeric fields, operands of the wrong type", "bitmap and BSI libraries trusted as libraries; their use by comet is what is checked"},
 		Shards: func(tier string) []vShard {
 			var sh []vShard
-			maxDocs := 2
+			maxDocs := 3
 			if tier == "thorough" {
-				maxDocs = 3
+				maxDocs = 4
 			}
 			// shard by first document
 			for d0 := range vC04Docs {
